@@ -152,6 +152,9 @@ ZONES = {
     'ref_col_trim': ('F-REFSPLIT', trig_refsplit, ('reparse', 'roundtrip:.refs', 'sql')),
     'kw_prefix_name': ('F-KWPREFIX', trig_kwprefix, ('reparse',)),
     'ws_only_line': ('F-WSLINE', trig_wsline, ('roundtrip:', 'sql')),
+    # no generator feature: comments only enter through edit scripts (C14 owns comments)
+    '(column comment)': ('F-COLCOMMENT', lambda s: any(c.comment for t in s.tables for c in t.columns),
+                         ('roundtrip:.tables[].columns[].comment', 'fixpoint')),
 }
 # features that only matter to the parser-side writer / are orthogonal to rendering
 PARSE_ONLY = {'prop_newline'}
@@ -168,7 +171,7 @@ def strict_features():
 def expressible(s: ASchema) -> bool:
     """Rules of the DBML-expressible domain that an edit script can leave."""
     # an inline reference cannot carry a name or actions in DBML
-    if any(r.inline and r.kind != '<>' and (r.name or r.on_update or r.on_delete) for r in s.all_refs()):
+    if any(r.inline and r.kind != '<>' and (r.name or r.on_update or r.on_delete or r.comment) for r in s.all_refs()):
         return False
     # a plain type must not be spelled like a declared enum (it would be that enum after parsing)
     enum_spellings = {e.name for e in s.enums if e.schema == 'public'} | {f'{e.schema}.{e.name}' for e in s.enums}
@@ -370,7 +373,7 @@ def shard(ctx: Ctx):
 
     hyp_run(ctx, 'strict', cases(), run, n)
     for feat, (fid, trig, stages) in ZONES.items():
-        if not F.is_open(fid):
+        if not F.is_open(fid) or feat not in gen.ALL_FEATURES:
             continue
         zf = frozenset(feats | {feat} | ({'props'} if feat in ('multiline_value', 'kw_prefix_name') else set()))
         ctx.excluded[feat] += 0
